@@ -310,6 +310,8 @@ def part_a(ctx, cov, dist, rng, only=None):
 
 def expand_first(expr):
     """names hostlist_create yields for a word: only the FIRST bracket pair is expanded"""
+    if expr == "":
+        return []                   # hostlist_push(""): nothing is pushed
     i = expr.find("[")
     if i < 0:
         return [expr]
@@ -534,6 +536,10 @@ def pinned_reg_cases(transports):
         mk([["n[1-2]"], ["u2@n[3-4]", "n[5-6]"]], excl=ex)
     mk([["u1@n[1-3]", "n[5-6]"]], excl=["n1"])
     mk([["k[9-11]", "u1@h[01-03]"]], excl=["k10", "h02"])
+    # 9. degenerate annotations: empty user, empty type, '::', annotation without hosts, '@' and ':' in odd places
+    for ws in (["@h1", "h2"], [t2 + ":@h1", "h1"], [":h1", "h2"], [t1 + "::h1"], ["u1@h1:x", "h2"], ["h1", "u1@"], ["h1", t2 + ":"],
+               ["u1@u2@h1", "u2@h1"], [t2 + ":" + t3 + ":h1"], ["h1@", "h2"], ["u1@:h1"], [t1 + ":u1@h1:2", "h1:2"]):
+        mk([ws], l="bob")
     # more targets than one batch of threads (fanout 32): the rank is still the position in the list
     mk([["n[1-40]"]], excl=["n7"])
     mk([["u1@n[1-20]", t2 + ":n[15-45]"]], l="bob")
